@@ -121,7 +121,7 @@ ENGINES += [
  {"name": EL, "path": "harness/lsp_tools", "serves_properties": ["C21","C22","C23"], "kind_free_text": "Rust tool driving the real language-server state and handlers in-process (hook H6) against fresh servers and independent converters"},
  {"name": ES, "path": "harness/swc_tools", "serves_properties": ["C28"], "kind_free_text": "Rust tool linking the swc plugin as rlib; parse/transform/print of generated modules"},
  {"name": EG, "path": "harness/gql_tools", "serves_properties": ["C29","C30"], "kind_free_text": "Rust tool dumping relay graphql-syntax and graphql_schema_parser trees as canonical JSON for comparison with pylib/gqlref.py"},
- {"name": EF, "path": "harness/iso_tools", "serves_properties": ["C18","C19","C20"], "kind_free_text": "Rust tools over the compiler's public API + hooks H4/H5: fsops (artifact write plan/apply with fault plan), watchsim (incremental vs fresh state)"},
+ {"name": EF, "path": "harness/iso_tools", "serves_properties": ["C18","C19","C20"], "kind_free_text": "Rust tool `fsops` over isograph_compiler::verif (hook H4 + write_artifacts_to_disk re-export): `sets` drives seeded artifact-set sessions through the real plan/apply/state code on real directories with hostile initial content; `project` drives real projects through CompilerState/update_sources/compile with a per-primitive fault plan; pylib/fsops_common.py adds the real isograph_cli as a black box and under strace fault/kill injection"},
 ]
 
 CHECKS.update({
@@ -160,6 +160,15 @@ CHECKS.update({
  "C27": dict(engine=E3, level="exploration", technique="runtime monitoring: generated + checked-in projects compiled by the real CLI, artifacts evaluated by node; param_type.ts / raw_response_type.ts parsed by a hand-written parser of the emitted type sub-language (pylib/ts_types.py) and compared with the generator's intent model, with the reader AST + schema (gqlref), and with the operation text + schema",
    text="Held on N param types (P properties) and R raw response types (K keys): one property per selection named by alias or name, `| null` per level iff schema nullability, ReadonlyArray depth = list depth incl. nested lists, nesting, refinements/__typename/client fields/loadable/refetch/link/pointers typed by their convention; same keys and isFallible as the reader AST; raw response types have the key sets, nesting and wrappers of their operation; listed known findings excepted.",
    note="Trusted: pylib/ts_types.py parser, gqlref, isogen intent model; the JS type of scalars is not checked; the printer's inline-fragment union convention is followed; only the `data` member is compared; files node's stripper rejects are left to C13.", ref="3/C27"),
+})
+
+CHECKS.update({
+ "C18": dict(engine=EF, level="exploration", technique="runtime monitoring: real plan/apply code (in-process, hook re-exports) on 1-5-step random artifact-set sessions over arbitrary initial directory contents; real CompilerState sessions and the real isograph_cli on generated projects with edit sequences; lstat tree walk vs artifact set, operation list and inode/mtime of aged files for write minimality",
+   text="Held on N artifact-set sessions (M writes), P in-process project sessions and Q CLI projects over missing/empty/stale/foreign/file-for-directory/symlink directory states: directory == artifacts after every successful write; no unchanged artifact rewritten by later writes.",
+   note="Trusted: tree walker; entity/selectable names never collide with root file names; an artifact path that is a regular file is counted as refused; in-process legs need cfg(isographlabs_isograph_verif), CLI leg and cross-check are hook-free; tmpfs and ext4 targets.", ref="3/C18"),
+ "C19": dict(engine=EF, level="fault_enumeration", technique="runtime monitoring with exhaustive fault enumeration: every primitive k of the write phase failed through the hook fault plan (artifact-set sessions and real CompilerState sessions; first and later compiles), then 0-3 changes and recovery in the same session and in a fresh session; hook-free leg: real isograph_cli under strace inject error=EIO / signal=KILL at every write-phase syscall invocation, then an untraced compile; oracle = C18 tree equality",
+   text="Held: every fault point of every case (N points over DeleteDirectory/CreateDirectory/WriteFile/DeleteFile; S strace injections over openat/mkdir/unlinkat/write, EIO and KILL) reported an error and was repaired by the next successful compile in the same session and in a new one; exhaustive per case.",
+   note="Enumeration is exhaustive per generated case (counts by a fault-free dry run; exhaustive=false if any point was missed); in-process faults fail a primitive before it acts, partial effects only through strace; strace when=N counts per thread, each injection confirmed on an artifact path; operation kind inferred from the error path.", ref="3/C19"),
 })
 
 import subprocess
